@@ -215,6 +215,7 @@ func (c *C07Scn) concurrentPhase(scn *Scenario, res *RunResult, stream []byte, e
 		res.Counters["fault.preemption_inside_load"] += int64(sim.preemptIn)
 		res.Counters["strategy."+st.Kind]++
 		segs := trimSegs(sim.segs)
+		res.EvHash = (res.EvHash ^ sim.evHash) * fnvPrime
 		if sim.stop && !sim.deadlock {
 			res.Counters["budget_stopped_runs"]++
 			return nil, nil
@@ -278,9 +279,9 @@ func (c *C07Scn) concurrentPhase(scn *Scenario, res *RunResult, stream []byte, e
 		return basePass(st)
 	}
 	v, segs := pass(strat)
+	res.Segs = segs
 	if v != nil {
 		scn.Strat = strat
-		res.Segs = segs
 		return v
 	}
 	for _, cand := range cands {
